@@ -159,7 +159,7 @@ pub fn spaces(tier: &str, _seed: u64) -> Vec<Box<dyn Space>> {
     let rules: Vec<(f64, f64)> = if thorough {
         vec![(0.99, 0.8), (0.5, 0.8), (0.999, 0.8), (0.99, 0.5), (0.5, 0.5), (0.999, 0.5)]
     } else {
-        vec![(0.99, 0.8), (0.5, 0.5), (0.999, 0.8)]
+        vec![(0.99, 0.8), (0.5, 0.5)]
     };
     let lists: Vec<(Vec<ConeSpec>, usize)> = vec![
         (vec![NN(3), SOC(3)], 3),
@@ -173,12 +173,16 @@ pub fn spaces(tier: &str, _seed: u64) -> Vec<Box<dyn Space>> {
     ];
     let s0 = vec![SettingsSpec::default()];
     let mut v: Vec<Box<dyn Space>> = vec![];
-    for (l, n) in lists {
+    let nlists = lists.len();
+    for (li, (l, n)) in lists.into_iter().enumerate() {
+        if !thorough && li == nlists - 1 {
+            continue; // PSD(3) trajectories are slow on the plain-Rust LAPACK shims: thorough tier only
+        }
         let xids: Vec<u64> = if thorough { (0..3u64.pow(n as u32)).collect() } else { vec![5] };
         v.push(Box::new(Traj {
             src: Planted::new(l, n, s0.clone(), Judge::C04, 1, xids, "default"),
             step_rules: rules.clone(),
-            kmax: if thorough { 60 } else { 30 },
+            kmax: if thorough { 60 } else { 25 },
         }));
     }
     v
